@@ -40,7 +40,7 @@ ASSUMPTIONS = [
     "width/height of the description come from the P2P table (largest listed "
     "coordinate + 1)",
 ]
-FLOORS = {"survey_from_a_named_chip": 20, "iobuf_chain_of_hundreds": 3, "description_iterator_nested": 80, "code_name_compared": 100, "iobuf_non_ascii": 15, "system_info_checked": 150, "chip_info_compared": 1200,
+FLOORS = {"own_core_resource": 100, "survey_from_a_named_chip": 20, "iobuf_chain_of_hundreds": 3, "description_iterator_nested": 80, "code_name_compared": 100, "iobuf_non_ascii": 15, "system_info_checked": 150, "chip_info_compared": 1200,
           "machine_model_checked": 150, "core_constraints_checked": 150,
           "processor_status_checked": 150, "iobuf_checked": 150,
           "p2p_table_checked": 100, "unresponsive_chip": 100}
@@ -387,11 +387,23 @@ def run(case, ctx):
           "get-machine-differs", "deprecated get_machine() disagrees with "
           "build_machine(get_system_info())")
     # ------------------------------------------------- core reservations
-    cons = pr_utils.build_core_constraints(si)
+    # which resource stands for cores is the caller's choice (by position or
+    # by keyword in a third of the cases each)
+    own = (w * 5 + h + len(responding)) % 3
+    core_res = par.Cores if own == 0 else ("my", "cores")
+    if own == 1:
+        cons = pr_utils.build_core_constraints(si, core_res)
+    elif own == 2:
+        cons = pr_utils.build_core_constraints(si, core_resource=core_res)
+    else:
+        cons = pr_utils.build_core_constraints(si)
+    if own:
+        ctx.hit("own_core_resource")
     ctx.hit("core_constraints_checked")
     cover = {xy: [] for xy in responding}
     for k in cons:
-        check(k.resource is par.Cores and isinstance(k.reservation, slice) and
+        check((k.resource is par.Cores if own == 0 else
+               k.resource == core_res) and isinstance(k.reservation, slice) and
               k.reservation.step in (None, 1) and
               k.reservation.start < k.reservation.stop,
               "constraint-shape", repr(vars(k)))
